@@ -208,6 +208,11 @@ def cli_case(ctx, case):
         exp = None
     base = ['transform', src, dest, '--src-format', 'export',
             '--dest-format', fmt] + extra
+    import zlib
+    if zlib.crc32(repr((spec, fmt, len(bank))).encode()) % 3 == 0:
+        # how often progress is reported is no business of the parts
+        base += ['--counting', str((1, 2, 3)[len(keep) % 3])]
+        ctx.stratum('cli with --counting')
     rc, out, err = common.cli(base + ['--split', spec])
     ctx.hook('cli.split')
     if exp is None:
